@@ -242,7 +242,7 @@ func C19() *runner.Property {
 					cs = append(cs, runner.MkCase("exhaustive", fmt.Sprintf("%s-n%d-%d", kk, n, from), c19Params{Kind: "exhaustive", KeyKind: kk, N: n, From: from, To: from + chunk, Seed: r.U64()}))
 				}
 			}
-			nr, cnt := 24, 150
+			nr, cnt := 64, 150
 			if tier == "thorough" {
 				nr, cnt = 1600, 600
 			}
